@@ -82,6 +82,10 @@ func (s *Durable) store(tx *buntdb.Tx, key string, t Value) {
 	}
 
 	tx.Set(key, t.encode(), opts)
+
+	// Invalidate the read cache, otherwise Has/Get keep answering with the
+	// previous value until the cached entry expires.
+	s.cache.Del(binary.ToBytes(key))
 }
 
 // Fetch fetches the item either from transaction or cache.
